@@ -70,6 +70,14 @@ pub fn oracle(b: [u8; 4]) -> Option<String> {
 }
 
 pub fn run(a: &Args) {
+    if let Some(r) = &a.replay { if let Some(rest) = r.strip_prefix("vframe ") {
+        let t: Vec<&str> = rest.split_whitespace().collect(); let compressed = t[0] == "C"; let o: usize = t[1].parse().unwrap(); let g = unhex(t[2]);
+        let b = [g[o], g[o + 1], g[o + 2], g[o + 3]]; let (want, _) = read(b);
+        let ok = match crate::wire::decode_buf(compressed, &g) {
+            crate::wire::Dec::Got(p, _) => { let same = matches!(crate::wire::encode_p(compressed, &p), crate::wire::Enc::Ok(e) if e == g); println!("identifier {} ({}): the packet decodes to {} and re-encodes {}", hex(&b), want.show(), format!("{:?}", p).chars().take(120).collect::<String>(), if same { "identically" } else { "differently" }); want != R::E && same },
+            crate::wire::Dec::Bad(_) => { println!("identifier {} ({}): the packet is a decode error", hex(&b), want.show()); want == R::E },
+            d => { println!("decoder outcome {}", crate::wire::cls_string(&d)); false } };
+        if ok { println!("PASS"); std::process::exit(0) } else { println!("FAIL [C13] a packet's car-name field does not follow the v9 rule"); std::process::exit(1) } } }
     if let Some(r) = &a.replay {
         let b = unhex(r);
         let b4 = [b[0], b[1], b[2], b[3]];
@@ -120,6 +128,39 @@ pub fn run(a: &Args) {
         })).collect();
         for h in handles { let (n, fails) = h.join().unwrap(); st.evaluations += n; st.add("sweep32", n); for (w, i) in fails { st.fail(w, i); } }
         st.exhaustive.push("all 2^32 wire values (implementation oracle)".into());
+    }
+    // the same rule where the identifier travels: every car-name field of every packet kind (fixed part and array elements).  A frame
+    // whose identifier the rule rejects must be a decode error; otherwise the frame decodes, shows the car the rule names and
+    // re-encodes to the identical bytes
+    {
+        use crate::{gen::layouts::KINDS, layout::{gen_frame, width, fixed_width, Atom, Tail, Custom}, wire::{decode_buf, encode_p, Dec, Enc}};
+        let mut samples: Vec<[u8; 4]> = vec![[0; 4]];
+        for c in CARS.iter() { let b = c.as_bytes(); samples.push([b[0], b[1], b[2], 0]); samples.push([b[0].to_ascii_lowercase(), b[1], b[2], 0]); samples.push([b[0], b[1], b[2], 1]); }
+        for s in ["XYZ", "FO9", "000", "aB1", "ZZZ", "xfg", "A1b", "UF2", "[F1", "XF`"] { let b = s.as_bytes(); samples.push([b[0], b[1], b[2], 0]); }
+        for _ in 0..40 { let r = rng.bytes(4); samples.push([r[0], r[1], r[2], r[3] | 1]); let r = rng.bytes(3); samples.push([b'0' + r[0] % 10, b'A' + r[1] % 26, b'a' + r[2] % 26, 0]); }
+        let mut nslots = 0u64;
+        for compressed in [true, false] { for k in KINDS.iter() {
+            let Some((f, _)) = gen_frame(&mut rng, k, compressed, 0, Some(2)) else { continue };
+            let mut slots: Vec<(usize, String)> = vec![]; let mut off = 2;
+            for (name, at) in k.fixed { if matches!(at, Atom::Custom(Custom::Vehicle, _)) { slots.push((off, name.to_string())); } off += width(at); }
+            if let Tail::Vec { elt, .. } = k.tail { let ew = fixed_width(elt); let mut eo = 0; for (name, at) in elt { if matches!(at, Atom::Custom(Custom::Vehicle, _)) { for e in 0..2 { slots.push((2 + fixed_width(k.fixed) + e * ew + eo, format!("[{e}].{name}"))); } } eo += width(at); } }
+            for (o, name) in slots { if o + 4 > f.len() { continue; } nslots += 1;
+                for b in samples.iter() {
+                    let mut g = f.clone(); g[o..o + 4].copy_from_slice(b); st.evaluations += 1;
+                    let id = format!("vframe {} {o} {}", if compressed { "C" } else { "U" }, hex(&g));
+                    let (want, _) = read(*b);
+                    match decode_buf(compressed, &g) {
+                        Dec::Got(p, _) => {
+                            if want == R::E { st.fail(format!("[C13] {}.{name}: the unrecognised built-in-style name {} is accepted inside a packet: {}", k.name, hex(b), format!("{:?}", p).chars().take(100).collect::<String>()), id.clone()); }
+                            match encode_p(compressed, &p) { Enc::Ok(e) if e == g => {}, Enc::Ok(e) => st.fail(format!("[C13] {}.{name}: identifier {} re-encodes as {}", k.name, hex(b), hex(&e[o..(o + 4).min(e.len())])), id.clone()), _ => st.fail(format!("[C13] {}.{name}: the decoded packet does not encode", k.name), id.clone()) }
+                        },
+                        Dec::Bad(_) => if want != R::E { st.fail(format!("[C13] {}.{name}: identifier {} ({}) makes the packet undecodable", k.name, hex(b), want.show()), id.clone()); },
+                        d => st.fail(format!("[C13] {}.{name}: decoder outcome {}", k.name, crate::wire::cls_string(&d)), id.clone()),
+                    }
+                }
+            }
+        } }
+        st.notes.push(format!("car-name fields inside packets: {nslots} (kinds x fields x modes), {} identifiers each", samples.len()));
     }
     st.distinct_nontrivial = nontrivial;
     st.rule = "4-byte values: all 62^3 alnum names + 17^4 boundary grid + every single-byte neighbour of each built-in name + seeded random words; distinct inputs counted, non-trivial = last byte 0 (zero / built-in-shaped / near-shaped), i.e. not a plain mod id".into();
